@@ -54,6 +54,12 @@ func (g *Grammar) goFieldType(prefix string, f Field) string {
 		return "[]int"
 	case FInt8:
 		return "int8"
+	case FPars:
+		return "*gram.PTok"
+	case FParsV:
+		return "gram.PTok"
+	case FParss:
+		return "[]gram.PTok"
 	}
 	return "string"
 }
@@ -91,6 +97,8 @@ func (g *Grammar) GoSource(prefix string) string {
 			sb.WriteString("\tgram.PosMixin\n")
 		case 2:
 			sb.WriteString("\tPos gram.MyPos\n\tEndPos gram.MyPos\n\tTokens []lexer.Token\n")
+		case 4:
+			sb.WriteString("\tgram.PosMixin\n\tPos lexer.Position\n\tEndPos lexer.Position\n\tTokens []lexer.Token\n")
 		}
 		if embed > 0 {
 			fmt.Fprintf(&sb, "\t%sEmb\n", name)
